@@ -245,33 +245,63 @@ def run(ctx):
     # ------------------------------------------------------------------ R4
     ctx.rule("C17.R4", "directive words carry join(directive, literal); join is [min offs, max end)", floor=5)
     pp = ctx.fn("lace::parser::preprocess")
+    from .. import emis
+    DK = "lace::symbol::DirKind"
+    dsws = list(kit.discr_switches(pp, DK))
+    ctx.need(bool(dsws), "the directive dispatch in preprocess")
+    dsw = max(dsws, key=lambda s_: len(s_[2]))
+    dn = {v["name"]: v["idx"] for v in prog.adt(DK)["variants"]}
+    CID = {"callid"}
+
+    def token_of(e):
+        """block of the `advance_real` call whose token e is a part of"""
+        x = e
+        for _ in range(24):
+            if x[0] in ("field", "downcast", "ref", "deref"):
+                x = x[1]
+            elif x[0] == "cast":
+                x = x[3]
+            elif x[0] == "call" and str(x[1]).endswith("::branch") and len(x[2]) == 1:
+                x = x[2][0]
+            elif x[0] == "call" and str(x[1]).endswith("::advance_real") and len(x) > 3:
+                return x[3]
+            else:
+                return None
+        return None
+
+    dir_tok = token_of(pp.place_expr(dsw[1], 12, CID))
+    ctx.need(dir_tok is not None, "the directive token of preprocess's dispatch (an advance_real result)")
     n_tok = 0
-    for b, t, c in pp.calls():
-        if c in ("lace::lexer::Token::byte", "lace::lexer::Token::nullbyte"):
+    for name in ("Fill", "Blkw", "Stringz"):
+        if dn.get(name) not in dsw[2]:
+            ctx.need(False, "the .%s arm of preprocess" % name.lower())
+            continue
+        reg = kit.dominated_region(pp, dsw[2][dn[name]])
+        for x in emis.emissions(prog, pp, reg, CID):
             n_tok += 1
             ctx.instance(1)
-            e = pp.expr(t["args"][-1], 8, stop={"named"})
-            # the span local is named `span`; look at its definition
-            sl = e[1] if e[0] == "local" else None
-            okk = False
-            desc = expr_str(e)
-            if sl is not None:
-                defs = pp.defs().get(sl, [])
-                exprs = []
-                for kind, db, i, node in defs:
-                    if kind == "call" and callee_of(node) == "lace::symbol::Span::join":
-                        exprs.append(tuple(expr_str(pp.expr(a, 6, stop={"named"})) for a in node["args"]))
-                # the definition that reaches this use: the one in a dominating block
-                dom_defs = [x for x in defs if x[0] == "call" and pp.dominates(x[1], b)]
-                if dom_defs and callee_of(dom_defs[-1][3]) == "lace::symbol::Span::join":
-                    args = [expr_str(pp.expr(a, 6, stop={"named"})) for a in dom_defs[-1][3]["args"]]
-                    okk = any("dir.span" in a for a in args) and any("val.span" in a for a in args)
-                    desc = "join(%s)" % ", ".join(args)
-            ctx.oblig(okk, {"directive word span": desc, "at": sp_file_line(t.get("sp"))}, "Span::join(dir.span, val.span)")
+            okk, desc = False, "?"
+            if x["span"] is not None:
+                sf, se = x["span"]
+                while se[0] in ("ref", "deref"):
+                    se = se[1]
+                desc = expr_str(se, 160)
+                if se[0] == "call" and se[1] == "lace::symbol::Span::join" and len(se[2]) == 2:
+                    parts = []
+                    for a_ in se[2]:
+                        while a_[0] in ("ref", "deref"):
+                            a_ = a_[1]
+                        parts.append(token_of(a_[1]) if a_[0] == "field" and a_[2] == "span" else None)
+                    # the directive's own token and the operand token read inside this arm
+                    okk = dir_tok in parts and any(q is not None and q != dir_tok and q in reg for q in parts)
+                    desc = "join(%s)" % ", ".join("directive" if q == dir_tok else "operand" if q in reg else "?" for q in parts)
+            elif x["kind"] == "other":
+                desc = x.get("what", "?")
+            ctx.oblig(okk, {"directive word span": desc, "at": sp_file_line(x.get("sp")), "directive": name}, "Span::join(dir.span, val.span)")
             if not okk:
-                ctx.violation("directive-span|%s" % c.rsplit("::", 1)[1], sp_file_line(t.get("sp")),
-                              "a data word of a directive gets span `%s` instead of join(directive, literal)" % desc)
-    ctx.need(n_tok >= 5, "Token::byte/nullbyte constructions in preprocess (found %d)" % n_tok)
+                ctx.violation("directive-span|%s|%s" % (name.lower(), x["kind"]), sp_file_line(x.get("sp")),
+                              "a data word of .%s gets span `%s` instead of join(directive, literal)" % (name.lower(), desc))
+    ctx.need(n_tok >= 3, "word emissions in the .fill/.blkw/.stringz arms of preprocess (found %d)" % n_tok)
     jf = ctx.fn("lace::symbol::Span::join")
     for b, t, c in jf.calls():
         if c == "lace::symbol::Span::new":
